@@ -8,6 +8,9 @@ CHECKS = {
  "C04": ("bounded-exhaustive program-space enumeration (all disabled-subsets x deviations<=k) executed on rustc-compiled derive output, compared with a reference list",
          "Every enum definition of the stated bounded program space is compiled with the real derive and its forward/reverse traversal, count() and COUNT are compared with the reference list of enabled variants; the claim holds for that whole space, not a sample.",
          "trusted: rustc, derived Debug, generated vidx() match, the R-enabled reference in vf-core; type parameters instantiated with u8", "DESIGN.md §4 C04"),
+ "C05": ("explicit-state BFS to fixpoint (stateright) over (real iterator bytes, reference cursor) states with the real object rebuilt by history replay; dev and release profiles",
+         "All reachable states of the real derived iterator under the stated action alphabet (next, next_back, nth/nth_back with small, huge and near-usize::MAX n, clone with two live iterators) are visited for every enum of the program space, each transition compared with core::ops::Range as reference, in both overflow-checking and wrapping builds; verdict holds for histories of any length over the alphabet.",
+         "trusted: rustc, core::ops::Range, stateright BFS, raw-byte state key (two usize, no padding; guarded by size_of) ; n is drawn from representatives of usize", "DESIGN.md §4 C05"),
 }
 PENDING = {}
 
